@@ -16,7 +16,13 @@ import (
 	"time"
 )
 
-const Root = "/verif"
+// Root is the /verif directory the check runs from (set by ./check).
+var Root = func() string {
+	if r := os.Getenv("VERIF_ROOT"); r != "" {
+		return r
+	}
+	return "/verif"
+}()
 
 // Args are the command-line conventions of every harness binary.
 type Args struct {
